@@ -132,6 +132,7 @@ def kats(ck):
     ck.eq(w, "ed448 rfc8032 sig", fr.rfc8032_ed448_sign(H(seed), b""), H(sig))
     ck.ok(w, "ed448 rfc8032 verify", fr.rfc8032_ed448_verify(H(pk), b"", H(sig)))
     ck.ok(w, "ed448 rfc8032 verify cofactored", fr.rfc8032_ed448_verify(H(pk), b"", H(sig), cofactored=True))
+    ck.ok(w, "ed448 rfc8032 verify permissive", fr.rfc8032_ed448_verify(H(pk), b"", H(sig), cofactored=True, strict=False))
     ck.ok(w, "ed448 rfc8032 verify bad", not fr.rfc8032_ed448_verify(H(pk), b"x", H(sig)))
 
     # BIP-340 vectors 0..3, and agreement of the two independent Taproot code paths
